@@ -13,6 +13,15 @@ pub struct TlsCell<T> { pub v: Option<T> }
 impl<T> TlsCell<T> {
     pub fn borrow(&self) -> (r: &Option<T>) ensures *r == self.v { &self.v }
     pub fn borrow_mut(&mut self) -> (r: &mut Option<T>) ensures *r == old(self).v, *final(r) == final(self).v { &mut self.v }
+    /// the std::cell::OnceCell interface of the same cell (a cell written at most once): `set` only fills an EMPTY cell
+    pub fn get(&self) -> (r: Option<&T>) ensures r is Some == self.v is Some, r matches Some(x) ==> self.v == Some(*x) {
+        match &self.v { Some(x) => Some(x), None => None }
+    }
+    pub fn set(&mut self, t: T) -> (r: Result<(), T>)
+        ensures old(self).v is None ==> r is Ok && final(self).v == Some(t), old(self).v is Some ==> r == Err::<(), T>(t) && final(self).v == old(self).v,
+    {
+        if self.v.is_none() { self.v = Some(t); Ok(()) } else { Err(t) }
+    }
 }
 /// this thread's instances of system.rs `CURRENT` and arbiter.rs `HANDLE`
 pub struct ThreadLocals { pub current: TlsCell<System>, pub handle: TlsCell<ArbiterHandle> }
@@ -73,20 +82,20 @@ impl ArbiterHandle {
 
 // ===================================================================== System: thread-local registration (C10)
 impl System {
-//@extract file=actix-rt/src/system.rs item="impl System / fn set_current" props=C10 name=system::set_current tls_state="CURRENT:current"
+//@extract file=actix-rt/src/system.rs item="impl System / fn set_current" props=C10 name=system::set_current tls_state="CURRENT:current" tls_calls="System::set_current,System::current,System::try_current,System::is_registered,Arbiter::current,Arbiter::try_current"
 //@spec
     ensures final(r25_tls).current.v == Some(sys), final(r25_tls).handle == old(r25_tls).handle,   // [C10]
 //@end
-//@extract file=actix-rt/src/system.rs item="impl System / fn current" ret=r props=C10 name=system::current tls_state="CURRENT:current" intended_panics
+//@extract file=actix-rt/src/system.rs item="impl System / fn current" ret=r props=C10 name=system::current tls_state="CURRENT:current" tls_calls="System::set_current,System::current,System::try_current,System::is_registered,Arbiter::current,Arbiter::try_current" intended_panics
 //@spec
     requires old(r25_tls).current.v is Some,     // "System is not running": the documented panic
     ensures is_sys(old(r25_tls).current.v, &r), *final(r25_tls) == *old(r25_tls),   // [C10] the system registered on THIS thread
 //@end
-//@extract file=actix-rt/src/system.rs item="impl System / fn try_current" ret=r props=C10 name=system::try_current tls_state="CURRENT:current"
+//@extract file=actix-rt/src/system.rs item="impl System / fn try_current" ret=r props=C10 name=system::try_current tls_state="CURRENT:current" tls_calls="System::set_current,System::current,System::try_current,System::is_registered,Arbiter::current,Arbiter::try_current"
 //@spec
     ensures r is Some == old(r25_tls).current.v is Some, r matches Some(s) ==> is_sys(old(r25_tls).current.v, &s), *final(r25_tls) == *old(r25_tls),
 //@end
-//@extract file=actix-rt/src/system.rs item="impl System / fn is_registered" ret=r props=C10 name=system::is_registered tls_state="CURRENT:current"
+//@extract file=actix-rt/src/system.rs item="impl System / fn is_registered" ret=r props=C10 name=system::is_registered tls_state="CURRENT:current" tls_calls="System::set_current,System::current,System::try_current,System::is_registered,Arbiter::current,Arbiter::try_current"
 //@spec
     ensures r == old(r25_tls).current.v is Some, *final(r25_tls) == *old(r25_tls),
 //@end
@@ -107,12 +116,12 @@ impl System {
 // ===================================================================== Arbiter: thread-local handle (C10)
 pub struct Arbiter { }
 impl Arbiter {
-//@extract file=actix-rt/src/arbiter.rs item="impl Arbiter / fn current" ret=r props=C10 name=arbiter::current tls_state="HANDLE:handle" intended_panics
+//@extract file=actix-rt/src/arbiter.rs item="impl Arbiter / fn current" ret=r props=C10 name=arbiter::current tls_state="HANDLE:handle" tls_calls="System::set_current,System::current,System::try_current,System::is_registered,Arbiter::current,Arbiter::try_current" intended_panics
 //@spec
     requires old(r25_tls).handle.v is Some,      // "Arbiter is not running.": the documented panic
     ensures is_hnd(old(r25_tls).handle.v, r.tx.chan()), *final(r25_tls) == *old(r25_tls),   // [C10] the arbiter running on THIS thread
 //@end
-//@extract file=actix-rt/src/arbiter.rs item="impl Arbiter / fn try_current" ret=r props=C10 name=arbiter::try_current tls_state="HANDLE:handle"
+//@extract file=actix-rt/src/arbiter.rs item="impl Arbiter / fn try_current" ret=r props=C10 name=arbiter::try_current tls_state="HANDLE:handle" tls_calls="System::set_current,System::current,System::try_current,System::is_registered,Arbiter::current,Arbiter::try_current"
 //@spec
     ensures r is Some == old(r25_tls).handle.v is Some, r matches Some(h) ==> is_hnd(old(r25_tls).handle.v, h.tx.chan()), *final(r25_tls) == *old(r25_tls),
 //@end
@@ -139,7 +148,7 @@ pub mod krate {
 }
 
 impl System {
-//@extract file=actix-rt/src/system.rs item="impl System / fn construct" ret=r props=C10 name=system::construct tls_state="CURRENT:current" tls_calls="System::set_current"
+//@extract file=actix-rt/src/system.rs item="impl System / fn construct" ret=r props=C10 name=system::construct tls_state="CURRENT:current" tls_calls="System::set_current,System::current,System::try_current,System::is_registered,Arbiter::current,Arbiter::try_current"
 //@spec
     ensures
         // the new system is registered as THE system of the constructing thread   [C10]
@@ -148,7 +157,7 @@ impl System {
 //@end
 }
 impl Arbiter {
-//@extract file=actix-rt/src/arbiter.rs item="impl Arbiter / fn in_new_system" ret=r props=C10 name=arbiter::in_new_system tls_state="HANDLE:handle"
+//@extract file=actix-rt/src/arbiter.rs item="impl Arbiter / fn in_new_system" ret=r props=C10 name=arbiter::in_new_system tls_state="HANDLE:handle" tls_calls="System::set_current,System::current,System::try_current,System::is_registered,Arbiter::current,Arbiter::try_current"
 //@replace pattern="crate::spawn(" rule=R15
 krate::spawn(
 //@spec
@@ -181,7 +190,7 @@ pub struct StdSendError { _p: () }
 pub struct StdSender { _p: () }
 impl StdSender { #[verifier::external_body] pub fn send(&self, v: ()) -> (r: Result<(), StdSendError>) ensures r is Ok { unimplemented!() } }
 
-//@extract file=actix-rt/src/arbiter.rs item="impl Arbiter / fn with_tokio_rt" closure_block=1 block_sig="fn arbiter_thread_body<F: FnOnce() -> TokioRuntime>(runtime_factory: F, tx: mpsc::UnboundedSender<ArbiterCommand>, sys: System, arb_id: usize, ready_tx: StdSender, rx: mpsc::UnboundedReceiver<ArbiterCommand>)" props=C09,C10 name=arbiter::thread_body tls_state="HANDLE:handle" tls_calls="System::set_current,System::current" trace_calls="ready_tx.send,send,block_on"
+//@extract file=actix-rt/src/arbiter.rs item="impl Arbiter / fn with_tokio_rt" closure_block=1 block_sig="fn arbiter_thread_body<F: FnOnce() -> TokioRuntime>(runtime_factory: F, tx: mpsc::UnboundedSender<ArbiterCommand>, sys: System, arb_id: usize, ready_tx: StdSender, rx: mpsc::UnboundedReceiver<ArbiterCommand>)" props=C09,C10 name=arbiter::thread_body tls_state="HANDLE:handle" tls_calls="System::set_current,System::current,System::try_current,System::is_registered,Arbiter::current,Arbiter::try_current" trace_calls="ready_tx.send,send,block_on"
 //@replace pattern="crate::runtime::Runtime::from(" rule=R15
 Runtime::from(
 //@spec
